@@ -9,10 +9,11 @@ Theorem C15_sorted_nodup : forall feeds a b,
 Proof. intros. apply journal_sorted, history_ok. Qed.
 Print Assumptions C15_sorted_nodup.
 
-(* exactly the recorded trips whose start lies in [a,b] and that were seen with a vehicle *)
+(* exactly the recorded trips whose start lies in [a,b] (bounds inclusive, given in nanoseconds: any instants, not only
+   whole seconds) and that were seen with a vehicle *)
 Theorem C15_selection : forall feeds a b tr,
   In tr (build_journal feeds a b) <->
-  In (jt_uid tr, tr) (st_trips (fold_left apply_feed feeds jinit)) /\ (a <= jt_start tr <= b) /\ jt_assigned tr = true.
+  In (jt_uid tr, tr) (st_trips (fold_left apply_feed feeds jinit)) /\ (a <= ns (jt_start tr) <= b) /\ jt_assigned tr = true.
 Proof.
   intros. unfold build_journal. rewrite journal_selection by apply history_ok. unfold selected.
   rewrite !andb_true_iff, !negb_true_iff, !Z.ltb_ge. tauto.
@@ -60,7 +61,7 @@ Print Assumptions C15_uid_injective_partial.
    code (known finding K1): two trips with different (start, suffix) share a UID and collapse into one journal entry *)
 Theorem C15_uid_injective_refuted :
   uid_of k1_a = uid_of k1_b /\ (start_of k1_a, sdrop 6 (ut_id k1_a)) <> (start_of k1_b, sdrop 6 (ut_id k1_b)) /\
-  List.length (build_journal [{| jf_created := 1000; jf_trips := [k1_a; k1_b] |}] (-1000000) 1000000) = 1%nat.
+  List.length (build_journal [{| jf_created := 1000; jf_trips := [k1_a; k1_b] |}] (ns (-1000000)) (ns 1000000)) = 1%nat.
 Proof. exact uid_collision_refuted. Qed.
 Print Assumptions C15_uid_injective_refuted.
 Example C15_nyct_like_example : nyct_like {| ut_id := "067800_L..N"; ut_route := "L"; ut_dir := 2; ut_date := 1699938000; ut_time := 40680000000000; ut_vehicle := None; ut_stops := [] |}.
